@@ -47,3 +47,9 @@ CLAIMS["C15"] = (
  "Trusted: cmd/ogen as macro-expander; fixture corpus (quick: 8 fixtures, thorough: all directives with present inputs); reviewed table entries; go/ssa dominance.",
  "static analysis: must-pass-through and dominance rules on the SSA of regenerated handlers, constant-return analysis, compiler-enumerated bounds obligations",
 )
+CLAIMS["C09"] = (
+ "other",
+ "Per expansion (S2: every generated handler and client method evaluating security, for all requests and credential subsets): the user handler is dominated by the success edge of every security call and by the satisfied requirement test, failures build SecurityError (→401 constant); bit discipline (k-th scheme sets exactly bit (k/8,k%8) on its accepted edge, distinct bits, masks ⊆ settable bits, array long enough) and the requirement closure has the shape OR-over-alternatives of AND-over-bits (matched on SSA loop structure) for server and client; the client writes each scheme's credential to the carrier the server reads; S1: template div/mod constants equal bitset.Set's, one index per scheme name, operation-level security replaces global. One known finding: an error from one scheme short-circuits alternatives that do not contain it. Requirement structures outside the fixture corpus (S2 rules) and the user's SecurityHandler are NOT decided.",
+ "Trusted: cmd/ogen as macro-expander; fixture corpus; go/ssa dominance and loop structure.",
+ "static analysis: SSA dominance, constant extraction of bit indices and masks, loop-shape matching, sibling agreement of client/server credential carriers",
+)
